@@ -340,6 +340,8 @@ class Body:
             v = Var(l, name or ("_%d" % l), self.locals[l]["ty"])
             if depth > 0 and len(ds) > 1 and not self.partial_defs.get(l):
                 v.ok_payload = self._ok_payload(ds, depth)
+                if len(ds) == 2 and depth > 3:
+                    v.lift = self._match_lift(ds, depth)
             return v
         if name is not None and self.locals[l]["mut"]:
             return Var(l, name, self.locals[l]["ty"])
@@ -352,6 +354,55 @@ class Body:
         if name is not None:
             e = Named(name, l, e, self.locals[l]["ty"])
         return e
+
+    def _match_lift(self, ds, depth):
+        """`let v = match opt { Some(x) => f(x), None => d };` (or the `if let` spelling): the two
+        definitions of v sit on the Some and on the None side of one test of `opt`. Returns
+        (scrutinee, value on the Some side, value on the None side) or None."""
+        import q as _q
+        if getattr(self, "_lifting", False):
+            return None
+        self._lifting = True
+        try:
+            sides = {}
+            scrut = None
+            sw = None
+            for bi, si, kind, node in ds:
+                found = None
+                for c in _q.path_conditions(self, bi):
+                    if isinstance(c.discr, Discr) and len(c.values) == 1:
+                        val = list(c.values)[0]
+                        if c.neg:
+                            val = 1 - val if val in (0, 1) else None
+                        if val in (0, 1):
+                            found = (c, val)
+                if found is None:
+                    return None
+                c, val = found
+                if sw is not None and c.bb != sw:
+                    return None
+                sw = c.bb
+                scrut = c.discr.x
+                sides[val] = self.expr_of_rvalue(node["rv"], depth - 2) if kind == "assign" else self.expr_of_call(node, depth - 2)
+            if set(sides) != {0, 1} or scrut is None:
+                return None
+            x = scrut
+            while isinstance(x, (Named, Ref, Deref)):
+                x = x.x
+            if isinstance(x, Call):
+                ty = x.t["dest"]["ty"]
+            else:
+                rl = _q.root_local(scrut)
+                ty = self.locals[rl]["ty"] if rl is not None else ""
+            while ty.startswith("&"):
+                ty = ty[1:].lstrip()
+                if ty.startswith("mut "):
+                    ty = ty[4:]
+            if not ty.startswith("core::option::Option<"):
+                return None
+            return (scrut, sides[1], sides[0])
+        finally:
+            self._lifting = False
 
     def _ok_payload(self, ds, depth):
         """For a Result/Option local with several definitions of which exactly one builds the
